@@ -441,7 +441,7 @@ def substore_cases(ctx, sets, ids_per_set):
 
 def layer_substore(ctx, sets, ids_per_set, diff=True):
     cases = substore_cases(ctx, sets, ids_per_set)
-    model = ctx.lean([["substore", L.acc_term(a), c, L.AB_CODE[ab]] for a, ab, c in cases]) if diff else [None] * len(cases)
+    model = ctx.lean([["substore", L.acc_term(a), c, L.AB_CODE[ab], L.substore_guard()] for a, ab, c in cases]) if diff else [None] * len(cases)
     for (acc, ab, cid), m in zip(cases, model):
         handlers, sent, aborts = run_substore(acc, ab, cid)
         case = ["substore", {"acc": L.case_of_acc(acc), "ab": ab, "cid": cid}]
@@ -457,8 +457,8 @@ def layer_substore(ctx, sets, ids_per_set, diff=True):
         if diff:
             real = [handlers[0] if handlers else None, sent[0][0] if sent else None,
                     bool(sent and sent[0][1] == 0x0122), aborts > 0]
-            mm = [None if m[0] == "none" else m[0], m[1], m[2] == "T", m[3] == "T"]
-            if len(handlers) > 1 or len(sent) != 1 or real != mm:
+            mm = [None if m[0] == "none" else m[0], None if m[1] == "none" else m[1], m[2] == "T", m[3] == "T"]
+            if len(handlers) > 1 or len(sent) > 1 or real != mm:
                 ctx.diff(case, [handlers, sent, aborts], m)
 
 
